@@ -162,3 +162,120 @@ def _dedupe(states):
             seen.add(key)
         out.append(s)
     return out
+
+
+# ------------------------------------------------------------------------------------- R-FOREIGN-NODE-LISTS-INTACT
+MIN_MUTATIONS = 6
+MUTATORS = {'append', 'extend', 'insert', 'pop', 'remove', 'reverse', 'sort', 'clear', '__setitem__', '__delitem__',
+            '__iadd__'}
+
+
+def r_foreign_node_lists_intact(ctx, repo, modules=('constructor',)):
+    """A constructor function may edit the child list of the node it was handed (flatten_mapping rewrites node.value); the
+    child list of any *other* node - a merge source, an alias target - is shared by every place that refers to that node and
+    is only read.  May-alias analysis per function, flow-insensitive, two levels: F0 = a local that may be the `.value` list of
+    a node other than the function's own node parameter; F1 = a local container that may hold such lists."""
+    from .srcmodel import walk_function
+    rule = ctx.rule('R-FOREIGN-NODE-LISTS-INTACT',
+                    'no constructor function mutates in place a list that may be the .value of a node other than the node it was '
+                    'called for (merge sources and alias targets are shared; their child lists are read, never edited)')
+    n = 0
+    for f in repo.all_functions(list(modules)):
+        if f.cls is None or len(f.params) < 2:
+            continue
+        own = f.params[1]
+        stmts = list(walk_function(f.node))
+
+        def is_foreign_value(e, F0):
+            """e may evaluate to the child list of a foreign node"""
+            if isinstance(e, ast.Attribute) and e.attr == 'value' and isinstance(e.ctx, ast.Load):
+                return not (isinstance(e.value, ast.Name) and e.value.id == own)
+            if isinstance(e, ast.Name):
+                return e.id in F0
+            if isinstance(e, ast.IfExp):
+                return is_foreign_value(e.body, F0) or is_foreign_value(e.orelse, F0)
+            if isinstance(e, ast.BoolOp):
+                return any(is_foreign_value(v, F0) for v in e.values)
+            if isinstance(e, ast.NamedExpr):
+                return is_foreign_value(e.value, F0)
+            return False
+
+        def holds_foreign(e, F0, F1):
+            if isinstance(e, ast.Name):
+                return e.id in F1
+            if isinstance(e, (ast.List, ast.Tuple)):
+                return any(is_foreign_value(x, F0) for x in e.elts)
+            if isinstance(e, ast.ListComp):
+                return is_foreign_value(e.elt, F0) or _comp_over(e, F0, F1)
+            if isinstance(e, ast.Call) and isinstance(e.func, ast.Name) and e.func.id in ('reversed', 'list', 'tuple', 'iter') \
+                    and e.args:
+                return holds_foreign(e.args[0], F0, F1)
+            return False
+
+        def _comp_over(e, F0, F1):
+            return False
+
+        # only scalar-free functions matter: `.value` of a ScalarNode is a str (immutable); every mutation below is on lists
+        F0, F1 = set(), set()
+        changed = True
+        while changed:
+            changed = False
+            for s in stmts:
+                if isinstance(s, ast.Assign):
+                    for t in s.targets:
+                        if isinstance(t, ast.Name):
+                            if is_foreign_value(s.value, F0) and t.id not in F0:
+                                F0.add(t.id); changed = True
+                            if holds_foreign(s.value, F0, F1) and t.id not in F1:
+                                F1.add(t.id); changed = True
+                elif isinstance(s, ast.NamedExpr) and isinstance(s.target, ast.Name):
+                    if is_foreign_value(s.value, F0) and s.target.id not in F0:
+                        F0.add(s.target.id); changed = True
+                elif isinstance(s, ast.For) and isinstance(s.target, ast.Name):
+                    if holds_foreign(s.iter, F0, F1) and s.target.id not in F0:
+                        F0.add(s.target.id); changed = True
+                elif isinstance(s, ast.Call) and isinstance(s.func, ast.Attribute) and isinstance(s.func.value, ast.Name) \
+                        and s.func.attr in ('append', 'insert') and s.args:
+                    if is_foreign_value(s.args[-1], F0) and s.func.value.id not in F1:
+                        F1.add(s.func.value.id); changed = True
+        # sinks
+        for s in stmts:
+            target, how = None, None
+            if isinstance(s, ast.Call) and isinstance(s.func, ast.Attribute) and s.func.attr in MUTATORS:
+                target, how = s.func.value, '.%s(...)' % s.func.attr
+            elif isinstance(s, ast.AugAssign):
+                target, how = s.target, 'augmented assignment'
+                if isinstance(target, ast.Subscript):
+                    target = target.value
+            elif isinstance(s, ast.Delete):
+                for t in s.targets:
+                    if isinstance(t, ast.Subscript) and is_foreign_value(t.value, F0):
+                        target, how = t.value, 'del ...[...]'
+            elif isinstance(s, ast.Assign):
+                for t in s.targets:
+                    if isinstance(t, ast.Subscript) and is_foreign_value(t.value, F0):
+                        target, how = t.value, 'item assignment'
+            if target is None:
+                continue
+            n += 1
+            if is_foreign_value(target, F0):
+                from .astutil import anon_text
+                rule.fail('%s|foreign-list-mutated|%s' % (f.qualname, how), f.module.rel, getattr(s, 'lineno', f.node.lineno),
+                          f.qualname, norm_text(s),
+                          'the list mutated here (%s) may be the child list of a node other than %r - a merge source or an alias '
+                          'target, which every other reference to that node shares: a later use of the same anchor sees the edit'
+                          % (how, own))
+    if n < MIN_MUTATIONS:
+        raise AnalysisError('R-FOREIGN-NODE-LISTS-INTACT examined %d in-place mutations in the constructor, fewer than %d: the '
+                            'rule no longer matches the code it was written for' % (n, MIN_MUTATIONS))
+    if not rule.failed:
+        rule.ok('constructor.py', '%d in-place mutations: none on a list that may belong to a foreign node' % n)
+    return rule
+
+
+def norm_text(s):
+    from .srcmodel import norm
+    try:
+        return norm(s).split('\n')[0][:80]
+    except Exception:
+        return type(s).__name__
